@@ -8,6 +8,7 @@ import ArcaModel.Model.StructMapWF
           S ::= {"t":"leaf","ty":T}                       T = a schema of the schema protocol
               | {"t":"list","item":S,"min":..,"max":..} | {"t":"map","k":T,"v":S,"min":..,"max":..}
               | {"t":"scope","inner":S}
+              | {"t":"oneOf","intKey":b,"disc":..,"inlined":b,"members":[[key,S],...]}   key: decimal text for int keys
               | {"t":"sobj","id":..,"ptrT":b,"st":{"name":..,"fields":[F,...]},"props":[[name,P],...]}
           F ::= {"name":..,"tag":..,"exported":b,"ty":G,"zero":X}
           G ::= {"g":"bool"|"str"|"iface"|"regex"} | {"g":"int","k":kind} | {"g":"float","k":"f32"|"f64"}
@@ -119,6 +120,13 @@ partial def decStructTy (j : Json) : R STy := do
   | "list" => return .list (← decStructTy (← field j "item")) (← optDec j "min") (← optDec j "max")
   | "map" => return .map (← decTy (← field j "k")) (← decStructTy (← field j "v")) (← optDec j "min") (← optDec j "max")
   | "scope" => return .scope (← decStructTy (← field j "inner"))
+  | "oneOf" =>
+    let intKey := getBool j "intKey"
+    let ms ← arrField j "members"
+    let members ← ms.toList.mapM fun e => do
+      let p ← e.getArr?
+      return (← decKey intKey p[0]!, ← decStructTy p[1]!)
+    return .oneOf intKey (← getStr (← field j "disc")) (getBool j "inlined") members
   | "sobj" =>
     let stj ← field j "st"
     let fs ← (← arrField stj "fields").toList.mapM decStructField
